@@ -145,6 +145,9 @@ func runSession(r *core.Run) {
 		if wantSeqWord != seq {
 			r.Fail("C10", "set-seq", site, "header-offset", "sequence number %d is not at the header's sequence offset (found %d)", seq, wantSeqWord)
 		}
+		if proto.Header == "sgip20" && built == "literal" && hseq != m.Seq {
+			r.Fail("C10", "set-seq", site, "sequence-words", "the three sequence words set were %v, the encoded header carries %v", m.Seq, hseq)
+		}
 		if got := pdu.GetCommand().ToUint32(); got != cmd {
 			r.Fail("C10", "command", site, built, "GetCommand()=%#x but the encoded header carries command id %#x", got, cmd)
 		}
@@ -470,6 +473,29 @@ func dispatchAnyType(r *core.Run, proto *spec.Proto) {
 		}
 		if got := back.GetCommand().ToUint32(); got != cmd {
 			r.Fail("C10", "command", site, "decoded", "decoded from command id %#x, GetCommand() reports %#x", cmd, got)
+		}
+		// the same image cut short or damaged in its tail: a PDU or an error, never neither
+		hl := proto.HeaderLen()
+		for k2 := 0; k2 < 3 && len(b) > hl+1; k2++ {
+			d := append([]byte(nil), b...)
+			switch c.Intn(3) {
+			case 0:
+				d = d[:hl+c.Intn(len(d)-hl)]
+			case 1:
+				d = d[:len(d)-1-c.Intn(min(12, len(d)-hl-1))]
+			default:
+				d[len(d)-1-c.Intn(min(8, len(d)-hl))] ^= 0xff
+			}
+			binary.BigEndian.PutUint32(d, uint32(len(d)))
+			var dp protocol.PDU
+			var derr error
+			if p := r.Call("Decode"+proto.Name, func() { dp, derr = dispatcher[proto.Name](d) }); p != nil {
+				continue // C03's business
+			}
+			if dp == nil && derr == nil {
+				r.Fail("C10", "dispatch", "Decode"+proto.Name, "nil-nil", "a damaged %s image (%d of %d octets): neither a PDU nor an error", site, len(d), len(b))
+				return
+			}
 		}
 	}
 }
